@@ -124,7 +124,12 @@ fn child_body(engine: &mut Engine, case: &Value, chan: &mut std::fs::File, out_f
         .filter(|(_, v)| *v != 0)
         .map(|(k, v)| (k.to_string(), json!(v)))
         .collect();
-    let mut endrec = json!({"end": true, "counters": counters, "ticks": crate::hostfns::ticks_json()});
+    let maxrss_kb = unsafe {
+        let mut ru: libc::rusage = std::mem::zeroed();
+        libc::getrusage(libc::RUSAGE_SELF, &mut ru);
+        ru.ru_maxrss as u64
+    };
+    let mut endrec = json!({"end": true, "counters": counters, "ticks": crate::hostfns::ticks_json(), "maxrss_kb": maxrss_kb});
     if case["events"].as_bool().unwrap_or(false) {
         let evs: Vec<Value> = steel::verif::drain_events()
             .into_iter()
@@ -361,6 +366,7 @@ pub fn main(args: &[String]) -> i32 {
         if !endrec.is_null() {
             rec["counters"] = endrec["counters"].clone();
             rec["ticks"] = endrec["ticks"].clone();
+            rec["maxrss_kb"] = endrec["maxrss_kb"].clone();
             if endrec.get("events").is_some() {
                 rec["events"] = endrec["events"].clone();
             }
